@@ -1765,6 +1765,11 @@ func buildExtensions(template *Certificate) (ret []pkix.Extension, err error) {
 		var out nameConstraints
 		out.Permitted = make([]generalSubtree, len(template.PermittedDNSDomains))
 		for i, permitted := range template.PermittedDNSDomains {
+			if len(permitted) == 0 {
+				// the parser reads a subtree without a DNS name as a constraint of another kind
+				err = errors.New("x509: empty permitted DNS domain")
+				return
+			}
 			out.Permitted[i] = generalSubtree{Name: permitted}
 		}
 		ret[n].Value, err = asn1.Marshal(out)
